@@ -62,3 +62,38 @@ func VC13_NoAttributes() {
 	vsym.Assert(!ok, "a signer entry without signed attributes does not verify")
 	vsym.Reach("end")
 }
+
+// VC13_AttributeShapes: SignedData in DER whose signer entry names the verifying certificate and
+// whose signed-attributes field is absent, present but empty, not a set of attributes, or holds an
+// attribute with an empty value set: parsing and verification return, and never report success.
+func VC13_AttributeShapes() {
+	signer := vsym.Signer("k1")
+	serial := []byte{1, 2}
+	cert := vsym.Cert(signer, serial)
+	var attrField []byte
+	switch vsym.Pick("attrs.shape", 4) {
+	case 1:
+		attrField = []byte{0xa0, 0x00}
+	case 2:
+		attrField = []byte{0xa0, 0x02, 0x05, 0x00}
+	case 3:
+		attrField = vDER(0xa0, vDER(0x30, vCat(vOIDContentTy, vDER(0x31, nil))))
+	}
+	algSHA := vDER(0x30, vCat(vOIDSHA256, vNULL))
+	ci := vOIDData
+	if vsym.Bool("attached") {
+		ci = vCat(ci, vDER(0xa0, vDER(0x04, vsym.BytesN("content", 4))))
+	}
+	si := vDER(0x30, vCat([]byte{0x02, 0x01, 0x01}, vDER(0x30, vCat(cert.RawIssuer, vRefInteger(serial))), algSHA,
+		attrField, vDER(0x30, vCat(vOIDRSA, vNULL)), vDER(0x04, vsym.BytesN("sig", 256))))
+	blob := vDER(0x30, vCat([]byte{0x02, 0x01, 0x01}, vDER(0x31, algSHA), vDER(0x30, ci), vDER(0xa0, cert.Raw), vDER(0x31, si)))
+	vsym.MustTerminate()
+	p, err := ParsePKCS7(blob)
+	if err != nil {
+		vsym.Reach("rejected")
+		return
+	}
+	ok, _ := p.Verify(cert)
+	vsym.Assert(!ok, "a signer entry without usable signed attributes does not verify")
+	vsym.Reach("end")
+}
